@@ -27,6 +27,8 @@ def make_message(kind):
         "plain": "boom",
         "multiline": "first line\nsecond line",
         "nonascii": "café ✓ über",
+        # a lone surrogate, as os.fsdecode() produces for an undecodable file name: no encoding can write it strictly
+        "surrogate": "cannot open caf\udce9.txt",
         "balanced": tag("info") + "a" + tag("info", True),
         "opening": tag("info") + "a",
         "closing": "a" + tag("info", True),
